@@ -43,6 +43,12 @@ func (o op) String() string {
 		return fmt.Sprintf("M(%s@%d)", o.key, o.due)
 	case 'W':
 		return fmt.Sprintf("W(%d)", o.due)
+	case 'P':
+		return fmt.Sprintf("EnqueueInAnyOrder(%d)", o.due)
+	case 'Q':
+		return fmt.Sprintf("DequeueNoneOrAnyOf(%d)", o.due)
+	case 'R':
+		return fmt.Sprintf("ReplaceNoneOrAnyOf(%d)", o.due)
 	}
 	return "C"
 }
@@ -105,6 +111,23 @@ func mkExec(scripts [][]op, epoch time.Time, timeline bool) *mc.Exec {
 			ci, sc := ci, sc
 			mc.GoNamed(fmt.Sprintf("client%d", ci), func() {
 				defer wg.Done()
+				dequeue := func(key string) {
+					c := cancelRec{key: key, start: mc.Step(), client: ci}
+					p.Dequeue(key)
+					c.end = mc.Step()
+					c.endAt = mc.ModelNow()
+					m.cancels = append(m.cancels, c)
+				}
+				enqueue := func(key string, due int) {
+					r := &rec{id: len(m.items), key: key, due: tenth(due), client: ci}
+					m.items = append(m.items, r)
+					byID[r.id] = r
+					r.enqStart = mc.Step()
+					r.enqStartAt = mc.ModelNow()
+					p.Enqueue(&item{key: key, due: epoch.Add(r.due), id: r.id})
+					r.enqEnd = mc.Step()
+					r.enqEndAt = mc.ModelNow()
+				}
 				for _, o := range sc {
 					switch o.kind {
 					case 'E', 'M':
@@ -132,11 +155,32 @@ func mkExec(scripts [][]op, epoch time.Time, timeline bool) *mc.Exec {
 						r.enqEnd = mc.Step()
 						r.enqEndAt = mc.ModelNow()
 					case 'D':
-						c := cancelRec{key: o.key, start: mc.Step(), client: ci}
-						p.Dequeue(o.key)
-						c.end = mc.Step()
-						c.endAt = mc.ModelNow()
-						m.cancels = append(m.cancels, c)
+						dequeue(o.key)
+					case 'P':
+						// o.due items "k1".."kN", due 1 ms apart, enqueued in an order the
+						// explorer chooses (every permutation is one branch of the search)
+						left := make([]int, o.due)
+						for i := range left {
+							left[i] = i + 1
+						}
+						for len(left) > 0 {
+							c := mc.Choose(len(left))
+							i := left[c]
+							left = append(left[:c], left[c+1:]...)
+							enqueue(fmt.Sprintf("k%d", i), 10+10*i)
+						}
+					case 'Q':
+						// none, or one of the o.due keys dequeued
+						if c := mc.Choose(o.due + 1); c > 0 {
+							dequeue(fmt.Sprintf("k%d", c))
+						}
+					case 'R':
+						// none, or one of the o.due keys replaced by an item due half a
+						// millisecond before any of the o.due+1 original slots
+						if c := mc.Choose(o.due*(o.due+1) + 1); c > 0 {
+							c--
+							enqueue(fmt.Sprintf("k%d", c/(o.due+1)+1), 15+10*(c%(o.due+1)))
+						}
 					case 'W':
 						mc.TimeSleep(tenth(o.due))
 					case 'C':
@@ -327,7 +371,7 @@ func scenarios() []hx.Scenario {
 		hasE := false
 		for _, s := range scripts {
 			for _, o := range s {
-				if o.kind == 'E' || o.kind == 'M' {
+				if o.kind == 'E' || o.kind == 'M' || o.kind == 'P' {
 					hasE = true
 				}
 			}
@@ -343,6 +387,12 @@ func scenarios() []hx.Scenario {
 			Opts:         mc.Options{Bound: 2, TieCost: 1, AutoClock: true, ClockLast: timeline, ClockSteps: clock, Horizon: horizon, TimerSem: sem, Epoch: epoch},
 			Mk:           func() *mc.Exec { return mkExec(sc, epoch, timeline) },
 		})
+		if strings.HasPrefix(tag, "tl:heap:") {
+			// the choices of these scripts (order, target) are free: every one of
+			// them is explored at bound 0, next to the default schedule
+			o := &out[len(out)-1].Opts
+			o.Bound, o.TieCost = 0, 0
+		}
 	}
 	for i, s1 := range seqs {
 		for j, s2 := range seqs {
@@ -420,6 +470,29 @@ func scenarios() []hx.Scenario {
 			add([][]op{{{'E', "a", 10}, {'E', "b", 10}, {'E', "d", 10}}, {{'W', "", w}, late}}, false, mc.TimerGo123, nil, "burst:")
 			add([][]op{{{'E', "a", 10}, {'E', "b", 11}, {'E', "d", 12}}, {{'W', "", w}, late}}, true, mc.TimerGo123, nil, "burst:")
 		}
+	}
+	// many items: every order of enqueueing N items due 1 ms apart, then none or
+	// any one of them dequeued or replaced (earlier, later, in between) — the
+	// queue has to hand them over in time order, each at its time, whatever shape
+	// its internal ordering structure took on the way (one client, timeline mode;
+	// W lets the loop arm its timer in between)
+	for _, h := range []struct {
+		sc     []op
+		thOnly bool
+	}{
+		{[]op{{'P', "", 4}, {'Q', "", 4}, {'R', "", 4}}, false},
+		{[]op{{'P', "", 5}, {'R', "", 5}}, false},
+		{[]op{{'P', "", 6}}, false},
+		{[]op{{'P', "", 6}, {'Q', "", 6}}, false},
+		{[]op{{'P', "", 7}, {'Q', "", 7}}, false},
+		{[]op{{'P', "", 4}, {'W', "", 5}, {'R', "", 4}, {'Q', "", 4}}, false},
+		{[]op{{'P', "", 3}, {'W', "", 25}, {'P', "", 5}, {'Q', "", 5}}, false},
+		{[]op{{'P', "", 6}, {'R', "", 6}}, true},
+		{[]op{{'P', "", 8}}, true},
+		{[]op{{'P', "", 7}, {'W', "", 35}, {'R', "", 7}}, true},
+		{[]op{{'P', "", 5}, {'Q', "", 5}, {'R', "", 5}, {'Q', "", 5}}, true},
+	} {
+		add([][]op{h.sc}, h.thOnly, mc.TimerGo123, nil, "tl:heap:")
 	}
 	// two Close calls from different goroutines next to a client at work: every
 	// Close — also the one that finds the processor already being closed —
